@@ -1780,7 +1780,14 @@ class ExecutionTracer(AbstractExecutionTracer):  # noqa: PLR0904
             arg_type = type(None)
         else:
             src_address = self.attribute_lookup(obj, attr_name)
-            attr_value = getattr(obj, attr_name)
+            if opname[opcode] in {"STORE_ATTR", "DELETE_ATTR"}:
+                # The subject stores or deletes the attribute, it does not read it. Reading
+                # it dynamically could run a property, `__getattr__` or `__getattribute__`
+                # that the subject does not run, and fails if the class keeps the value
+                # under another name. Only look at what is statically there.
+                attr_value = inspect.getattr_static(obj, attr_name, None)
+            else:
+                attr_value = getattr(obj, attr_name)
             arg_address = id(attr_value)
             arg_type = type(attr_value)
 
